@@ -64,6 +64,11 @@ type ropHooks struct {
 	// aborts the operation.
 	after func(api string, err error, empty bool) bool
 	sched *Sched
+	// reuse: the task keeps one postings list and one iterator and passes
+	// them as prealloc to every postings lookup (as a searcher does)
+	reuse bool
+	pl    segment.PostingsList
+	it    segment.PostingsIterator
 }
 
 func (h *ropHooks) call(api string, err error, empty bool) bool {
@@ -212,15 +217,23 @@ func ExecROp(ws *WSeg, seg segment.Segment, op *ROp, h *ropHooks) (*RRes, error)
 		if !h.call("Dictionary", err, false) {
 			return r, err
 		}
-		pl, err := dict.PostingsList(term, nil, nil)
+		var prePL segment.PostingsList
+		var preIt segment.PostingsIterator
+		if h.reuse {
+			prePL, preIt = h.pl, h.it
+		}
+		pl, err := dict.PostingsList(term, nil, prePL)
 		if !h.call("PostingsList", err, false) {
 			return r, err
 		}
 		r.Count = pl.Count()
 		wf, wn, wl := op.Flags&1 != 0, op.Flags&2 != 0, op.Flags&4 != 0
-		it, err := pl.Iterator(wf, wn, wl, nil)
+		it, err := pl.Iterator(wf, wn, wl, preIt)
 		if !h.call("PostingsList.Iterator", err, false) {
 			return r, err
+		}
+		if h.reuse {
+			h.pl, h.it = pl, it
 		}
 		for {
 			p, err := it.Next()
